@@ -29,7 +29,7 @@ RULE = ("case = one parameter set (exhaustive sweep) or a pair of parameter sets
         "class of interest: k for which k/100*100 is not exact in binary floating point. Distinct = different case.")
 ASSUMPTIONS = ["probabilities are whole percents k/100 with k = 1..99"]
 NAME = re.compile(r"^robot_(\d+)_w(\d+)_l(\d+)_r(\d+)_rb(\d+)_lb(\d+)_tb(\d+)_lt(\d+)(_force_down)?\.py$")
-MANUAL = re.compile(r"^manual_robot_w(\d+)_l(\d+)_r(\d+)_rb(\d+)_lb(\d+)_tb(\d+)_(force_down)?\.py$")
+MANUAL = re.compile(r"^manual_robot_w(\d+)_l(\d+)_r(\d+(?:\.\d+)?)_rb(\d+)_lb(\d+)_tb(\d+)_(force_down)?\.py$")
 FIELDS = ("rb", "lb", "tb", "lt")
 
 
@@ -45,6 +45,8 @@ def sweep():
         for k in range(1, 100):
             p = dict(rb=10, lb=20, tb=30, force_down=bool(k % 2))
             p[field] = k
+            if k % 4 == 0:
+                p["top_reward"] = (2.5, 4.75, 12.125, 7.0)[k % 16 // 4]     # hand-made boards may carry fractional rewards
             yield dict(kind="manual", params=p)
 
 
@@ -142,8 +144,9 @@ def check_case(case):
         os.chdir(d)
         try:
             try:
+                top = p.get("top_reward", 4)
                 r.stochastic_game_from_roborta_board.create_sg_from_board(
-                    moves, [[4, 2]], [[0, 1]], p["rb"] / 100, p["lb"] / 100, p["tb"] / 100)
+                    moves, [[top, 2]], [[0, 1]], p["rb"] / 100, p["lb"] / 100, p["tb"] / 100)
             except Exception as e:
                 v.fail("generator-raises", f"create_sg_from_board: {type(e).__name__}: {e}", sig=type(e).__name__)
                 return v
@@ -154,9 +157,10 @@ def check_case(case):
             v.fail("name-does-not-parse", f"manual entry point wrote {files}")
             return v
         m = MANUAL.match(files[0])
-        got = dict(width=int(m[1]), length=int(m[2]), max_reward=int(m[3]), rb=int(m[4]), lb=int(m[5]), tb=int(m[6]),
+        got = dict(width=int(m[1]), length=int(m[2]), max_reward=float(m[3]), rb=int(m[4]), lb=int(m[5]), tb=int(m[6]),
                    force_down=bool(m[7]))
-        want = dict(width=2, length=1, max_reward=4, rb=p["rb"], lb=p["lb"], tb=p["tb"], force_down=fd)
+        want = dict(width=2, length=1, max_reward=float(p.get("top_reward", 4)), rb=p["rb"], lb=p["lb"], tb=p["tb"],
+                    force_down=fd)
         bad = {f: (want[f], got[f]) for f in want if want[f] != got[f]}
         if bad:
             v.fail("name-misstates-parameter", f"manual entry point wrote {files[0]!r}: " +
